@@ -92,6 +92,15 @@ def toUint64 : GVal → Nat
   | .nil => 0          -- ParseUint("")
   | .comp _ => 0       -- ParseUint("[…]") / ParseUint("map[…]"): syntax error
 
+/-- to.Int64 -/
+def toInt64 : GVal → Int
+  | .int i => intOfU64 (u64OfInt i)
+  | .float x => x.toInt64
+  | .bool b => if b then 1 else 0
+  | .str s => parseInt s
+  | .nil => 0          -- ParseInt("")
+  | .comp _ => 0       -- ParseInt("[…]"): syntax error
+
 /-- to.Float64 -/
 def toFloat64 : GVal → F64
   | .int i => F64.ofInt (intOfU64 (u64OfInt i))
@@ -160,7 +169,8 @@ inductive Outcome where
 def convert (f : Format) (v : GVal) : GVal :=
   match f with
   | .float => .float (toFloat64 v)
-  | .uint8 | .uint16 | .uint32 | .int32 | .uint64 => .int (intOfU64 (toUint64 v))
+  | .uint8 | .uint16 | .uint32 | .uint64 => .int (intOfU64 (toUint64 v))
+  | .int32 => .int (toInt64 v)     -- F44 repair: was `int(to.Uint64(v))`, whose result for a negative number is left to the platform
   | .bool => .bool (toBool v)
   | .string | .tlv8 | .data => .str (toStr v)
   | .other => v
